@@ -170,6 +170,15 @@ CLAIMED = {
         note="Assumed: A-LOOKUP (index relabelling / row order is the assumed block layout, not proved), reals for floats. Not decided: "
              "splitting loads (per-bus sums), out-of-service elements, bus fusing through zero-impedance switches, per-unit "
              "conversion of transformers / impedances / wards."),
+    "C12": dict(
+        text="Proof (ghost events / dataflow on the real text): ConstControl.set_recycle flags the ppc part derived from the table column a "
+             "controller drives, or switches recycling off, for every element/variable of the enumerated universe; _recycled_powerflow "
+             "re-derives, before the solver runs, every ppc part whose flag is set - for the branch flag the parameter function of "
+             "every branch table present in the lookup (trafo, trafo3w, line), for all combinations of flags and tables; "
+             "_check_output_writer_recyclability declares a result variable batch-readable only if OutputWriter.get_batch_outputs "
+             "records it (all result columns of res_bus / res_line / res_trafo / res_trafo3w / res_load / res_gen enumerated).",
+        note="Assumed: which ppc part derives from which table (DOMAIN in the contract). Not decided: numerical batch reading "
+             "(read_batch_results), only_v_results copying, other controller classes, the solver."),
 }
 
 NOT_APPLICABLE = {
